@@ -290,7 +290,7 @@ class Partitioned(struct.PyTreeNode, AxisMetadata[A]):
 
   def to_nnx_metadata(self) -> dict[str, Any]:
     """Return a dict of metadata that can translate into an `nnx.Variable`."""
-    metadata = vars(self)
+    metadata = dict(vars(self))  # copy: must not modify this box
     metadata['sharding'] = metadata.pop('names')
     return metadata
 
